@@ -812,6 +812,8 @@ UNITS = [
     ("scheduling ops", ["SchedOps.lean"], lambda src: __import__("sched2lean").generate(src)),
     ("coroutine state helpers", ["CoroState.lean"], lambda src: __import__("corostate2lean").generate(src)),
     ("context selection", ["CtxResume.lean"], lambda src: __import__("ctxresume2lean").generate(src)),
+    ("await-protocol wrappers (coro_iter, coro_await, awaitmethod*, await_sync, syncfunction, aiter_sync)",
+     ["Wrappers.lean"], lambda src: __import__("wrappers2lean").generate(src)),
 ]
 
 
